@@ -3465,3 +3465,12 @@ impl Point {
         Self::split_mu(k)
     }
 }
+
+#[cfg(crrl_verif)]
+impl Point {
+    /// Access to the private map (field element to group element) used by
+    /// `hash_to_curve()`.
+    pub fn verif_map_to_curve(f: &GF255e) -> Self {
+        Self::map_to_curve(f)
+    }
+}
